@@ -241,7 +241,9 @@ def run(shard, ctx):
                 elif op == 1:
                     f = lambda: nc.add_note(n, o); m.add(n, o); hist.append(("add", n, o))
                 elif op == 2:
-                    f = lambda: nc.add_note(Note(n, o)); m.add(n, o); hist.append(("add Note", n, o))
+                    # (notes come on any channel and at any velocity: the container is a set of pitches all the same)
+                    ch, vel = rng.choice([1, 1, 0, 9, 15]), rng.choice([64, 64, 1, 127])
+                    f = lambda: nc.add_note(Note(n, o, channel=ch, velocity=vel)); m.add(n, o); hist.append(("add Note", n, o, {"channel": ch, "velocity": vel}))
                 elif op == 3:
                     lst = [rng.choice(NAMES16) for _ in range(rng.randint(1, 3))]
                     f = lambda: nc + lst
@@ -278,7 +280,8 @@ def run(shard, ctx):
                 elif op == 10:
                     f = lambda: nc + n; m.add(n); hist.append(("+", n))
                 elif rng.random() < 0.5:
-                    lst = [Note(rng.choice(NAMES16), rng.randint(2, 6)), [rng.choice(NAMES16), 3, {"velocity": 9}]]
+                    lst = [Note(rng.choice(NAMES16), rng.randint(2, 6), channel=rng.choice([1, 2, 10])),
+                           [rng.choice(NAMES16), 3, rng.choice([{"velocity": 9}, {"channel": 9}, {"channel": 3, "velocity": 100}])]]
                     m.add(lst[0].name, lst[0].octave), m.add(lst[1][0], 3)
                     f = lambda: nc.add_notes(lst)
                     hist.append(("add_notes mixed", repr(lst)))
